@@ -24,6 +24,11 @@ DumpLine(d, off, n, ow) ==
     LET line == SubSeq(d, off + 1, Min(off + n, Len(d)))
         hex == JoinSp(line)
     IN HexNat(off, ow) \o Spaces(3) \o hex \o Spaces((3 * n - 1) - Len(hex)) \o Spaces(3) \o [i \in 1..Len(line) |-> Printable(line[i])]
+\* one line of a long dump, from the slice of the data it shows and its offset
+DumpLineAt(slice, off, n, ow) ==
+    LET hex == JoinSp(slice)
+    IN HexNat(off, ow) \o Spaces(3) \o hex \o Spaces((3 * n - 1) - Len(hex)) \o Spaces(3) \o [i \in 1..Len(slice) |-> Printable(slice[i])]
+OffsetWidth(len) == IF len < 65536 THEN 4 ELSE 8
 HexDump(d, n) ==
     LET ow == IF Len(d) < 65536 THEN 4 ELSE 8
         nl == (Len(d) + n - 1) \div n
